@@ -237,6 +237,10 @@ def setup(concepts, spec):
 # ---------------------------------------------------------------------------
 # corruption operators on (objects, properties, rows) with rows as lists of cells
 
+class Label(str):
+    """A str subclass: still a string for every purpose of the property."""
+
+
 def _ops_triple():
     def drop_obj(t, r): o, p, b = t; i = r.randrange(len(o)) if o else 0; return (o[:i] + o[i + 1:], p, b)
     def drop_prop(t, r): o, p, b = t; j = r.randrange(len(p)) if p else 0; return (o, p[:j] + p[j + 1:], b)
@@ -287,6 +291,7 @@ def _ops_triple():
         o, p, b = t
         vals = {True: ['X', 1, 2.5, [0]], False: ['', 0, None, ()]}
         return (o, p, [[r.choice(vals[bool(c)]) for c in row] for row in b])
+    def strsubclass(t, r): o, p, b = t; return ([Label(x) for x in o], [Label(x) if i % 2 else x for i, x in enumerate(p)], b)
     def tuples(t, r): o, p, b = t; return (tuple(o), tuple(p), tuple(tuple(x) for x in b))
     return dict(locals())
 
@@ -352,6 +357,10 @@ def _ops_dict():
         return d
     def empty_prop(d, r):
         if 'properties' in d: d['properties'] = []; d['context'] = [() for _ in d.get('context', ())]
+        return d
+    def strsubclass(d, r):
+        for k in ('objects', 'properties'):
+            if k in d and all(isinstance(x, str) for x in d[k]): d[k] = [Label(x) for x in d[k]]
         return d
     def tuples(d, r):
         for k in ('objects', 'properties'):
